@@ -1,11 +1,18 @@
 (* C16 driver: no logic.  Reads one op per line, calls the extracted model, prints one canonical result line per op.
-   Line formats are those of harness/c16_params.c. *)
+   Line formats are those of harness/c16_params.c and harness/c16_adjust.c. *)
 open C16model
 
 let rec pos_of_int n = if n = 1 then XH else if n land 1 = 0 then XO (pos_of_int (n lsr 1)) else XI (pos_of_int (n lsr 1))
 let z_of_int n = if n = 0 then Z0 else if n > 0 then Zpos (pos_of_int n) else Zneg (pos_of_int (-n))
 let rec int_of_pos = function XH -> 1 | XO p -> 2 * int_of_pos p | XI p -> 2 * int_of_pos p + 1
 let int_of_z = function Z0 -> 0 | Zpos p -> int_of_pos p | Zneg p -> - (int_of_pos p)
+
+(* numbers that may exceed 62 bits are sent in binary, most significant bit first: "b1011" *)
+let z_of_bin s =
+  let n = String.length s in
+  let rec first i = if i >= n then None else if s.[i] = '1' then Some i else first (i + 1) in
+  let rec go i acc = if i >= n then acc else go (i + 1) (if s.[i] = '1' then XI acc else XO acc) in
+  match first 1 with None -> Z0 | Some i -> Zpos (go (i + 1) XH)
 
 let cls = function
   | Ok -> "ok"
@@ -15,7 +22,7 @@ let cls = function
   | Err E_other -> "err"
 
 let b s = (s = "1")
-let zi s = z_of_int (int_of_string s)
+let zi s = if String.length s > 0 && s.[0] = 'b' then z_of_bin s else z_of_int (int_of_string s)
 
 let parse toks =
   match toks with
@@ -53,15 +60,26 @@ let parse toks =
   | ["new"] -> ONew
   | _ -> failwith ("bad op: " ^ String.concat " " toks)
 
+let mk w c h s m t st = { wlog = zi w; clog = zi c; hlog = zi h; slog = zi s; mmatch = zi m; tlen = zi t; strat = zi st }
+
 let () =
   let w = ref world_new in
   let buf = Buffer.create (1 lsl 20) in
+  let print_cpar c =
+    List.iter (fun v -> Buffer.add_string buf (string_of_int (int_of_z v)); Buffer.add_char buf ' ') (cpar_list c);
+    Buffer.add_string buf (if check_cparams c then "1\n" else "0\n") in
   (try
      while true do
        let line = input_line stdin in
        let toks = List.filter (fun s -> s <> "") (String.split_on_char ' ' (String.trim line)) in
        match toks with
        | [] -> ()
+       | ["ids"] ->
+           Buffer.add_string buf "cids";
+           List.iter (fun p -> Buffer.add_string buf (" " ^ string_of_int (int_of_z (cparam_id p)))) all_cparams;
+           Buffer.add_string buf "\ndids";
+           List.iter (fun p -> Buffer.add_string buf (" " ^ string_of_int (int_of_z (dparam_id p)))) all_dparams;
+           Buffer.add_string buf "\n"
        | ["cbounds"; id] ->
            (match cbounds_id (zi id) with
             | Some (lo, hi) -> Buffer.add_string buf (Printf.sprintf "ok %d %d\n" (int_of_z lo) (int_of_z hi))
@@ -70,13 +88,13 @@ let () =
            (match dbounds_id (zi id) with
             | Some (lo, hi) -> Buffer.add_string buf (Printf.sprintf "ok %d %d\n" (int_of_z lo) (int_of_z hi))
             | None -> Buffer.add_string buf "unsup\n")
-       | ["ids"] ->
-           Buffer.add_string buf "cids";
-           List.iter (fun p -> Buffer.add_string buf (" " ^ string_of_int (int_of_z (cparam_id p)))) all_cparams;
-           Buffer.add_string buf "\ndids";
-           List.iter (fun p -> Buffer.add_string buf (" " ^ string_of_int (int_of_z (dparam_id p)))) all_dparams;
-           Buffer.add_string buf "\n"
        | ["skip"] -> Buffer.add_string buf "skip\n"
+       | ["adj"; wl; cl; hl; sl; mm; tl; st; src; dict; mode; row] ->
+           print_cpar (adjust_cparams (mk wl cl hl sl mm tl st) (zi src) (zi dict) (zi mode) (zi row))
+       | ["adjp"; wl; cl; hl; sl; mm; tl; st; src; dict] ->
+           print_cpar (adjust_cparams_public (mk wl cl hl sl mm tl st) (zi src) (zi dict))
+       | ["get"; level; src; dict; mode] -> print_cpar (get_cparams (zi level) (zi src) (zi dict) (zi mode))
+       | ["getp"; level; src; dict] -> print_cpar (get_cparams_public (zi level) (zi src) (zi dict))
        | _ ->
            let (w', (r, vals)) = step !w (parse toks) in
            w := w';
